@@ -350,6 +350,16 @@ def _ext_call(ev, dotted, args, kwargs, fr, node):
                 c = T.lt(x, items[i]) if dotted != 'bisect.bisect_left' else T.not_(T.lt(items[i], x))
                 out = T.phi(c, T.const(i), out)
             return out
+    if dotted == 'logging.getLogger':
+        return T.raw_op('LOGGER')
+    if dotted in ('logging.NullHandler', 'logging.StreamHandler') :
+        return T.raw_op('LOGHANDLER')
+    if dotted in ('logging.debug', 'logging.info', 'logging.warning', 'logging.error', 'logging.critical', 'logging.exception'):
+        return T.NONE
+    if dotted in ('types.MappingProxyType',) and len(args) == 1 and not kwargs:
+        # a read-only view of a mapping: every read sees the mapping itself (writes through the view raise TypeError, and the
+        # analysis never needs to write through it)
+        return args[0]
     if dotted == 'itertools.repeat' and len(args) == 1 and not kwargs:
         return T.raw_op('REPEAT', args[0])
     if dotted in ('weakref.ref', 'weakref.proxy', 'weakref.ReferenceType') and len(args) == 1 and not kwargs:
@@ -757,6 +767,17 @@ def attr_of(ev, base, name, fr):
 def method_call(ev, recv, name, args, kwargs, fr, node):
     if T.tag(recv) == 'raise':
         return recv
+    if T.is_op(recv, 'LOGGER'):
+        # a logger of the logging module: emitting a record computes its arguments (done by the caller) and returns None;
+        # where records go is configuration outside the package (no handler by default)
+        if name in ('debug', 'info', 'warning', 'warn', 'error', 'critical', 'exception', 'log', 'addHandler', 'removeHandler',
+                    'setLevel', 'addFilter'):
+            return T.NONE
+        if name in ('isEnabledFor', 'hasHandlers'):
+            return T.raw_op('BOOL', T.sym('ENV:logging configuration (%s)' % name, type='bool'))
+        if name == 'getChild':
+            return recv
+        return T.opaque('logger.%s' % name)
     if T.is_op(recv, 'STRUCTOBJ') and name in ('unpack', 'pack') and not kwargs:
         return _ext_call(ev, 'struct.' + name, [recv[2]] + list(args), {}, fr, node)
     if any(T.is_op(a, 'ITER') for a in args) and name in ('join', 'extend', 'update', 'fromkeys'):
